@@ -8,7 +8,7 @@ ENTRY = dict(
         theorems=["c14_splice", "c14_assign", "c14_validate_characterised", "c14_no_placeholder", "c14_others_in_order",
                   "c14_measure_bits", "c14_refuse_length", "c14_refuse_non_placeholder", "c14_refuse_differing_bases",
                   "c14_refuse_count", "c14_refuse_maps_length", "c14_refuse_map_out_of_range", "c14_omitted",
-                  "c14_omitted_never_crashes", "c14_facts"],
+                  "c14_omitted_never_crashes", "c14_setter", "c14_setter_invariant", "c14_facts"],
         allowed_axioms=[],
         facts=["value_error_sites", "c14_validate_messages", "c14_offset_updates", "c14_sorted_2q", "c14_min_register",
                "c14_decompose_value_errors"],
